@@ -14,6 +14,7 @@ import os
 import re
 import subprocess
 import sys
+import threading
 import time
 from concurrent.futures import ProcessPoolExecutor
 
@@ -44,13 +45,22 @@ class NodeProc(object):
             raise HarnessError("node %s failed to start: %r" % (ver, line[:200]))
         self.calls = 0
 
-    def call(self, m, p=None):
+    def call(self, m, p=None, timeout=240.0):
         self.calls += 1
-        self.p.stdin.write((json.dumps({"m": m, "p": p or {}}) + "\n").encode("utf-8"))
-        self.p.stdin.flush()
-        line = self.p.stdout.readline()
+        # watchdog outside the simulation: a node that never answers is a harness error, never a verdict
+        timer = threading.Timer(timeout, self.p.kill)
+        timer.daemon = True
+        timer.start()
+        try:
+            self.p.stdin.write((json.dumps({"m": m, "p": p or {}}) + "\n").encode("utf-8"))
+            self.p.stdin.flush()
+            line = self.p.stdout.readline()
+        except (BrokenPipeError, OSError):
+            line = b""
+        finally:
+            timer.cancel()
         if not line:
-            raise HarnessError("node %s died during %s" % (self.ver, m))
+            raise HarnessError("node %s died or timed out during %s" % (self.ver, m))
         res = json.loads(line)
         if "node_error" in res:
             raise HarnessError("node %s internal error in %s: %s" % (self.ver, m, res["node_error"]))
@@ -975,6 +985,12 @@ def shrink_plan(plan, tree, prop, target, budget_s=45.0):
                     if holds(c):
                         cur = c
                         changed = True
+        # drop producers/items no document refers to any more
+        used = set((d["producer"], d["item"]) for d in cur["docs"])
+        for pi, p in enumerate(cur["producers"]):
+            for ii in range(len(p["items"])):
+                if (pi, ii) not in used:
+                    p["items"][ii] = {"prog": {"kind": "unused", "name": "unused", "src": "pass\n"}}
         # graft and source shrinking
         for p in cur["producers"]:
             for item in p["items"]:
@@ -989,7 +1005,75 @@ def shrink_plan(plan, tree, prop, target, budget_s=45.0):
                     if holds(c):
                         cur = c
                         item.pop("graft", None)
+        cur = shrink_sources(cur, holds, deadline, lambda pl: [it["prog"] for p in pl["producers"] for it in p["items"]], tree)
+    else:
+        for k in list(cur["flags"]):
+            if cur["flags"][k] and time.time() < deadline:
+                c = copy.deepcopy(cur)
+                c["flags"][k] = False
+                if holds(c):
+                    cur = c
+        if cur.get("warm") and time.time() < deadline:
+            c = copy.deepcopy(cur)
+            c["warm"] = False
+            if holds(c):
+                cur = c
+        if cur.get("src"):
+            box = {"kind": "cli", "name": "cli", "src": cur["src"]}
+
+            def progs(pl):
+                return [box]
+
+            def holds_cli(pl):
+                c = copy.deepcopy(pl)
+                c["src"] = box["src"]
+                return holds(c)
+
+            shrink_sources(cur, holds_cli, deadline, progs, tree)
+            cur["src"] = box["src"]
     return cur
+
+
+def shrink_sources(plan, holds, deadline, progs_of, tree):
+    """Line-chunk ddmin of every embedded program source (a candidate that no longer compiles simply fails)."""
+    for idx in range(len(progs_of(plan))):
+        prog = progs_of(plan)[idx]
+        if "src" not in prog:
+            if "relpath" in prog:
+                try:
+                    with open(os.path.join(tree, prog["relpath"]), "rb") as f:
+                        prog["src"] = f.read().decode("utf-8", "replace")
+                    prog.pop("relpath")
+                    if not holds(plan):
+                        return plan
+                except OSError:
+                    continue
+            else:
+                continue
+        lines = prog["src"].split("\n")
+        n = 2
+        while len(lines) >= 2 and time.time() < deadline:
+            chunk = max(1, (len(lines) + n - 1) // n)
+            hit = None
+            for i in range(0, len(lines), chunk):
+                cand = lines[:i] + lines[i + chunk:]
+                old = prog["src"]
+                prog["src"] = "\n".join(cand)
+                if holds(plan):
+                    hit = cand
+                    break
+                prog["src"] = old
+                if time.time() > deadline:
+                    break
+            if hit is not None:
+                lines = hit
+                n = max(n - 1, 2)
+            else:
+                if chunk == 1:
+                    break
+                n = min(n * 2, len(lines))
+        prog["src"] = "\n".join(lines)
+    return plan
 
 
 def replay(rec, tree):
